@@ -48,6 +48,7 @@ MonNext(p, m, e) ==
               (IF e.cls = "TimeoutError" THEN [Hit(m, "timeout") EXCEPT !.done = "raised"] ELSE Fail(m, "timeout-did-not-raise-TimeoutError"))
          ELSE IF m.nfail = 0 THEN Fail(m, "start_component-raised-without-a-failure-or-timeout")
          ELSE [m EXCEPT !.done = "raised"]
+    [] e.ev = "stuck" -> IF m.nfail = 0 /\ m.rootdone THEN Fail(m, "start_component-did-not-return-although-the-startup-completed") ELSE m
     [] e.ev = "ctx.exit.begin" -> [m EXCEPT !.ctxexit = TRUE]
     [] e.ev = "td" -> IF ~m.ctxexit THEN Fail(m, "teardown-before-the-surrounding-context-was-left") ELSE [m EXCEPT !.tdrun = Append(@, e.id)]
     [] e.ev = "ctx.exit.end" -> IF m.tdrun # Rev(m.regs) THEN Fail(m, "registrations-made-before-the-abort-not-torn-down-in-reverse-order") ELSE Hit(m, "torn-down")
